@@ -120,7 +120,23 @@ pub fn gen_input(r: &mut StdRng, valid: &[String]) -> Vec<u8> {
             }
             s.into_bytes()
         }
-        9 => Vec::new(),
+        9 => {
+            if r.gen_bool(0.3) {
+                Vec::new()
+            } else {
+                // a digit run of random length mixing ASCII and non-ASCII digits of different byte widths
+                // (\d matches them all), inside or outside a counting comparison, formula or ordering
+                let pool = ['0', '7', '9', '\u{0663}', '\u{06f5}', '\u{0969}', '\u{0be7}', '\u{ff11}', '\u{1d7d0}', '\u{1d7ec}'];
+                let n = r.gen_range(1..48);
+                let run: String = (0..n).map(|_| pool[r.gen_range(0..pool.len())]).collect();
+                match r.gen_range(0..4) {
+                    0 => run.into_bytes(),
+                    1 => format!("[a, b] >= {}", run).into_bytes(),
+                    2 => format!("a & [x] < {} | b", run).into_bytes(),
+                    _ => format!("a {} b", run).into_bytes(),
+                }
+            }
+        }
         10 => {
             // unbalanced brackets / quotes
             let mut s = valid[r.gen_range(0..valid.len())].clone();
